@@ -272,22 +272,21 @@ def apply_prop_filter(el, ab):
     except KeyError:
         return False
 
+    # RFC 6352 section 10.5.1: the "test" attribute (default "anyof") says how
+    # the text-match / param-filter children are combined
+    test = {"allof": all, "anyof": any}[el.get("test", "anyof")]
     for prop_el in prop:
-        matched = True
+        results = []
         for subel in el:
             if subel.tag == "{urn:ietf:params:xml:ns:carddav}text-match":
                 # match the property value, not the repr of the content line
                 value = prop_el.value
                 if not isinstance(value, str):
                     value = str(value)
-                if not apply_text_match(subel, value):
-                    matched = False
-                    break
+                results.append(apply_text_match(subel, value))
             elif subel.tag == "{urn:ietf:params:xml:ns:carddav}param-filter":
-                if not apply_param_filter(subel, prop_el):
-                    matched = False
-                    break
-        if matched:
+                results.append(apply_param_filter(subel, prop_el))
+        if not results or test(results):
             return True
     return False
 
